@@ -16,7 +16,7 @@ class C02(HistNProp):
     RULE = ("h / h2 / h3 calls with d = 2..4 explicit per-axis binnings (static right-closed, static right-open, fixed-width "
             "right-open, gapped, tiny gaps, 1-4 bins per axis, different counts per axis; as edges / pairs / binning objects) x "
             "rows (n = 0..30; coordinates on / one ulp beside every edge, in gaps, outside, NaN) x weights (absent, int, dyadic, "
-            "all-equal non-unit, zeros) x row-wise, list, column-wise (h2, h3 lists) entry x axis names. non-trivial = at least one "
+            "all-equal non-unit, zeros, signed with every cell total >= 0) x row-wise, list, column-wise (h2, h3 lists) entry x axis names. non-trivial = at least one "
             "row inside a cell and one missed; distinct = op-list hash")
     FIELDS = {"bins", "shape", "freq", "err2", "missed", "total", "dtype", "names", "ndim"}
 
@@ -29,12 +29,33 @@ class C02(HistNProp):
         n = rng.choice([0, 1, 2, 4, 8, 15, 30])
         rows = gennd.rows_for(rng, [a[1] for a in axes], n)
         ws, wk = gen1.weights_for(rng, n, kinds=["none", "none", "int", "dyadic", "equal", "zeros"])
+        signed = False
+        if n and rng.random() < 0.15:
+            # signed weights (signal minus sideband): some rows are entered a second time with a negative weight that does not
+            # outweigh the first entry, so every cell content stays >= 0 while squared errors add up
+            signed = True
+            kind = rng.choice(["int64", "int64", "float64", "int32"])
+            pool = rng.choice([[1], [1], [1, 1, 2, 3], [1, 2]])       # plain +1 / -1 weights are the commonest signed form
+            base = [rng.choice(pool) for _ in range(n)]
+            extra_rows, extra_ws = [], []
+            for i in range(n):
+                if rng.random() < 0.5:
+                    extra_rows.append(list(rows[i]))
+                    extra_ws.append(-rng.randint(1, base[i]))
+            rows = rows + extra_rows
+            ws = base + extra_ws
+            order = list(range(len(rows))); rng.shuffle(order)
+            rows, ws = [rows[i] for i in order], [ws[i] for i in order]
+            if kind == "float64":
+                ws = [w / 2 for w in ws]
+            wk = kind
+            n = len(rows)
         entry = rng.choice(["h", "h", "list"] + (["h2"] if d == 2 else []) + (["h3", "h3cols"] if d == 3 else []))
         names = None
         if rng.random() < 0.4 or entry in ("h2", "h3cols"):
             # (h2 / h3 with bare columns and no names record the names as (None, None): not part of this property)
             names = [f"n{i}" for i in range(d)]
-        tags = ["d:%d" % d, "entry:" + entry]
+        tags = ["d:%d" % d, "entry:" + entry] + (["signed_weights"] if signed else [])
         if any(gen1.is_consecutive_exact(a[1]) is False for a in axes):
             tags.append("gapped")
         op = {"op": "construct", "out": 0, "axes": [a[0] for a in axes], "rows": gennd.enc_rows(rows),
@@ -62,6 +83,18 @@ class C02(HistNProp):
         rows, ws = op["rows"], op["weights"]
         has_nan = any(v is None for r in rows for v in r)
         must_refuse = (ws is not None and len(ws) != len(rows)) or (has_nan and not op.get("dropna", True))
+        if not must_refuse and ws is not None and any(Fraction(w) < 0 for w in ws):
+            # signed weights: a cell whose total would be negative is refused by physt (C18's clause, not this property's)
+            try:
+                ax0 = [([(Fraction(l), Fraction(r)) for l, r in b["bins"]], b.get("ire", True)) for b in op["axes"] if b["t"] == "static"]
+                if len(ax0) == len(op["axes"]):
+                    cells0, _ = gennd.brute_cells(ax0, rows, ws)
+                    if any(f < 0 for f, _ in cells0.values()):
+                        return []
+                elif out["ret"] == "REFUSED":
+                    return []
+            except Exception:
+                return []
         if out["ret"] == "REFUSED":
             if not must_refuse:
                 fails.append("refused_valid: a valid call was refused: " + "; ".join(io["log"][:2]))
